@@ -423,6 +423,15 @@ func (g *G) astate(s *ASpec) *AState {
 			// nested structure an action can reach into (in-place mutation below the top level)
 			st.Bs[g.pick(bindKeys)] = []interface{}{map[string]interface{}{"q": g.num()}, g.scalar()}
 		}
+		if g.chance(0.08) {
+			// a machine that failed twice already and was put back at a node with its bindings as they were: the
+			// history of failures is nested two levels deep
+			inner := map[string]interface{}{"error": "boom", "lastNode": g.pick(names), "lastBindings": map[string]interface{}{g.pick(bindKeys): g.smallJSON()}}
+			for k, v := range st.Bs {
+				inner[k] = deepCopy(v, nil)
+			}
+			st.Bs["lastBindings"], st.Bs["lastNode"], st.Bs["error"] = inner, g.pick(names), "boom"
+		}
 		g.bindThresholds(s, st)
 		if nd := s.Nodes[st.Node]; nd != nil && nd.Action != nil {
 			// a binding the node's action reaches into usually holds something to reach into
